@@ -388,8 +388,11 @@ namespace chaiscript {
                                         assert(children.size() == 1);
                                         chaiscript::eval::detail::Scope_Push_Pop spp(t_ss);
 
-                                        int i = start_int;
-                                        t_ss.add_object(id, var(&i));
+                                        // the counter is owned by the script variable: a closure that captured
+                                        // the loop variable keeps it alive after this function has returned
+                                        Boxed_Value counter(static_cast<int>(start_int));
+                                        int &i = boxed_cast<int &>(counter);
+                                        t_ss.add_object(id, counter);
 
                                         try {
                                           for (; i < end_int; ++i) {
